@@ -34,6 +34,20 @@ systematic part enumerates every boundary / every field x every special value / 
 smallest seeds, and the unterminated last string at every boundary length for every DEX seed that ends with its string
 data. Thorough tier: atheris coverage-guided campaigns (when atheris is importable).
 
+Tail-chunk combinations ('axml:tail-chunk-combo', 'arsc:tail-chunk-combo', also wrapped into an APK): every chunk
+walker advances by seeking to header.start + header.size, so the last chunk of the input is exercised under the
+product of its declared size (0..8, around the header size), its declared header size (kept, 0, 8, 12, 16, 0x18, 0x1c,
+0xffff), its type (every RES_*_TYPE of ResourceTypes.h and unknown values inside / outside the XML node range) and the
+number of bytes left from its start to the end of the buffer (0 .. header size + 16; cut or padded), with the sizes
+of the enclosing chunks following the new length (all / root only) or left as they are. Any chunk k becomes the last
+one by cutting the input after it, and one more chunk is appended behind the document. Systematic on generated
+minimal documents (string pool only; + element; + resource map; + namespace + text; table + pool; + package +
+typeSpec + type) and the smallest seeds, drawn (Hypothesis, optionally followed by one more mutation) on every seed.
+These tiny inputs go to the sandbox in batches (one request, one budget / timer per input). A spy records the
+offsets at which chunk headers were read: 'tail:walker-read-the-tail-header' counts the cases in which the mutated
+header itself was consumed. DEX analogue ('dex:tail-map-combo'): map_list count x bytes left after the start of the
+list x size / offset of the last complete map_item, file_size following or not, checksums re-fixed.
+
 Oracle: each call runs in a sandbox child process (fork) with a CPU-time budget of max(5 s, 2 ms x len(input))
 enforced with setitimer(ITIMER_PROF) (handler records the Python stack, answers and exits) and RLIMIT_CPU as a
 kernel-level backstop (a loop inside C code cannot run the Python handler), and a 2 GB address-space cap. CPU
@@ -74,7 +88,10 @@ RULE = ('case = (target in dex/axml/arsc/apk, bytes) where bytes = a small valid
         'last string, NUL of string k overwritten, no NUL from a boundary to EOF, non-NUL tail of chunk-boundary '
         'length at EOF, flips/splices/insert/delete), DEX checksums re-fixed for ~85 %, outer chunk size re-fixed for '
         '~50 % of AXML/ARSC; plus a systematic enumeration of every boundary / field x special value on the smallest '
-        'seeds; thorough adds atheris corpora. non-trivial = the parser got past its header checks (harness-side spy: '
+        'seeds; plus tail-chunk combinations for AXML / ARSC (chunk k made the last chunk: size 0..8 / around header '
+        'size x header size x chunk type x bytes left to the end of the buffer 0..header+16, enclosing sizes consistent '
+        'or not; systematic on generated minimal documents, drawn on all seeds; also inside an APK) and the map_list '
+        'analogue for DEX; thorough adds atheris corpora. non-trivial = the parser got past its header checks (harness-side spy: '
         'DEX MapList reached, AXML string pool reached, ARSC second chunk header reached, APK zip directory read); '
         'distinct = (target, bytes)')
 ASSUMPTIONS = [
@@ -339,7 +356,21 @@ def _install_spies():
         setattr(cls, name, spy)
     wrap(dex.MapList, '__init__', 'dex.maplist')
     wrap(axml.StringBlock, '__init__', 'pool')
-    wrap(axml.ARSCHeader, '__init__', 'hdr')
+    orig_hdr = axml.ARSCHeader.__init__
+
+    def hdr_spy(self, buff, *a, **k):
+        # measurement only: how many chunk headers were read, and (bounded) at which offsets
+        FLAGS['hdr'] = FLAGS.get('hdr', 0) + 1
+        offs = FLAGS.setdefault('hdr_offs', set())
+        if len(offs) < 512:
+            try:
+                offs.add(buff.tell())
+            except Exception:
+                pass
+        return orig_hdr(self, buff, *a, **k)
+    hdr_spy.__name__ = orig_hdr.__name__
+    hdr_spy.__qualname__ = getattr(orig_hdr, '__qualname__', orig_hdr.__name__)
+    axml.ARSCHeader.__init__ = hdr_spy
     wrap(apk.APK, '_apk_analysis', 'apk.zipread')
     # measurement only: how long was the run of bytes the DEX string reader consumed when it hit EOF without a NUL
     orig_rnts = dex.read_null_terminated_string
@@ -454,7 +485,7 @@ def _child_main(rfd, wfd):
         _, hard_cpu = resource.getrlimit(resource.RLIMIT_CPU)
         _warmup()                 # touch the code paths once (copy-on-write faults) before anything is timed
         _install_spies()
-        st_ = {'running': False, 't0': 0.0}
+        st_ = {'running': False, 't0': 0.0, 'done': None}
 
         def on_prof(signum, frame):
             if not st_['running']:
@@ -466,7 +497,7 @@ def _child_main(rfd, wfd):
                 stack = []
             try:
                 _send(wfd, {'outcome': 'timeout', 'stack': stack, 'flags': dict(FLAGS),
-                            'cpu': time.process_time() - st_['t0']})
+                            'cpu': time.process_time() - st_['t0'], 'done': st_.get('done')})
             finally:
                 os._exit(0)
         signal.signal(signal.SIGPROF, on_prof)
@@ -475,6 +506,35 @@ def _child_main(rfd, wfd):
             if req is None:
                 os._exit(0)
             target, data, budget = req
+            if target == '__batch__':
+                # several small inputs in one request (one round trip); every input has its own budget / timer
+                tgt, datas = data
+                results = st_['done'] = []
+                for d, bud in zip(datas, budget):
+                    FLAGS.clear()
+                    t0 = time.process_time()
+                    soft = int(t0 + bud * 1.5 + 3)
+                    if hard_cpu != resource.RLIM_INFINITY:
+                        soft = min(soft, hard_cpu)
+                    resource.setrlimit(resource.RLIMIT_CPU, (soft, hard_cpu))
+                    st_['t0'] = t0
+                    st_['running'] = True
+                    signal.setitimer(signal.ITIMER_PROF, bud)
+                    try:
+                        TARGETS[tgt](d)
+                        out = 'ok'
+                    except BaseException as e:
+                        out = 'exc:' + type(e).__name__
+                    st_['running'] = False
+                    signal.setitimer(signal.ITIMER_PROF, 0)
+                    cpu = time.process_time() - t0
+                    if out == 'exc:MemoryError':
+                        import gc
+                        gc.collect()
+                    results.append({'outcome': out, 'flags': dict(FLAGS), 'cpu': cpu})
+                st_['done'] = None
+                _send(wfd, {'outcome': 'batch', 'results': results})
+                continue
             FLAGS.clear()
             t0 = time.process_time()
             soft = int(t0 + budget * 1.5 + 3)
@@ -640,13 +700,51 @@ class Sandbox:
         return res
 
 
+    def run_batch(self, target, datas, budgets):
+        """Several (small) inputs in one request -> one result dict per input, as from run(). A time-out ends the child:
+        the inputs after it go to a new child. A child that dies or stalls without an answer cannot say at which input:
+        the whole batch is then run again one input per request."""
+        datas = [bytes(d) for d in datas]
+        if not datas:
+            return []
+        if self.pid is None or self.n >= self.max_requests:
+            self._spawn()
+        self.n += len(datas)
+        req = ('__batch__', (target, datas), [float(b) for b in budgets])
+        try:
+            _send(self.wfd, req)
+        except OSError:
+            self._spawn()
+            self.n += len(datas)
+            _send(self.wfd, req)
+        wall = max(180.0, max(budgets) * 40) + 3.0 * sum(budgets)
+        r, _, _ = select.select([self.rfd], [], [], wall)
+        res = _recv(self.rfd) if r else None
+        if res is None:
+            self.close()
+            return [self.run(target, d, b) for d, b in zip(datas, budgets)]
+        if res['outcome'] == 'harness':
+            self.close()
+            raise HarnessError('sandbox child failed:\n' + res.get('error', ''))
+        if res['outcome'] == 'batch':
+            return res['results']
+        if res['outcome'] != 'timeout' or res.get('done') is None:
+            raise HarnessError('unexpected answer to a batch request: %r' % (res.get('outcome'),))
+        self.close()
+        done = res.pop('done')
+        res.setdefault('stack', [])
+        i = len(done)
+        return done + [res] + self.run_batch(target, datas[i + 1:], budgets[i + 1:])
+
+
 _SB = {}
 
 
 def sandbox(kind='main'):
     sb = _SB.get((os.getpid(), kind))
     if sb is None:
-        sb = _SB[(os.getpid(), kind)] = Sandbox()
+        # 'batch': thousands of tiny inputs per second - the warm-up after a fork (~2 s) must not dominate
+        sb = _SB[(os.getpid(), kind)] = Sandbox(max_requests=20000) if kind == 'batch' else Sandbox()
     return sb
 
 
@@ -687,11 +785,20 @@ def _note_slow(ctx, target, data, origin, res):
         pass
 
 
-def evaluate(ctx, target, data, labels=(), origin=None, record=True):
+def evaluate_many(ctx, target, items):
+    """items = [(data, labels, origin)]: the first pass of all of them in one sandbox request (small inputs: the round
+    trip costs several times the parse), then each is recorded / confirmed exactly as by evaluate(). -> result dicts"""
+    datas = [bytes(d) for d, _, _ in items]
+    ress = sandbox('batch').run_batch(target, datas, [budget_for(len(d)) for d in datas])
+    return [evaluate(ctx, target, d, labels=lab, origin=org, res=r) for (d, (_, lab, org), r) in zip(datas, items, ress)]
+
+
+def evaluate(ctx, target, data, labels=(), origin=None, record=True, res=None):
     """Run one case under the oracle. Returns the (first-pass) result dict."""
     data = bytes(data)
     budget = budget_for(len(data))
-    res = sandbox().run(target, data, budget)
+    if res is None:
+        res = sandbox().run(target, data, budget)
     out = res['outcome']
     nt = nontrivial(target, res.get('flags', {}))
     if record:
@@ -777,6 +884,7 @@ def scan_dex(b, extra_offsets=()):
     u16, uleb, bounds = [], [], [0x20, 0x28, 0x70]
     laststr = None
     strnuls = []
+    maplist = None
     if n >= 0x70:
         for (cnt_o, off_o, isz) in ((0x38, 0x3c, 4), (0x40, 0x44, 4), (0x48, 0x4c, 12), (0x50, 0x54, 8),
                                     (0x58, 0x5c, 8), (0x60, 0x64, 32)):
@@ -856,6 +964,8 @@ def scan_dex(b, extra_offsets=()):
             bounds.append(mo)
             u32.append(mo)
             cnt = _u32(b, mo)
+            if cnt and mo + 4 + 12 * cnt <= n:
+                maplist = (mo, cnt)
             for k in range(min(cnt or 0, 40)):
                 e = mo + 4 + 12 * k
                 if e + 12 <= n:
@@ -870,7 +980,9 @@ def scan_dex(b, extra_offsets=()):
         if 0 < o < n:
             bounds.append(o)
             uleb.append(o)
-    return _points(b, u32, u16, uleb, bounds, laststr=laststr, strnuls=strnuls)
+    pts = _points(b, u32, u16, uleb, bounds, laststr=laststr, strnuls=strnuls)
+    pts['map'] = maplist
+    return pts
 
 
 def _points(b, u32, u16, uleb, bounds, chunks=(), laststr=None, strnuls=()):
@@ -991,12 +1103,154 @@ HUGE16 = [0, 1, 0xffff, 0x8000, 0x7fff, 7, 8, 0xfffe]
 HUGE_ULEB = [b'\xff\xff\xff\xff\x0f', b'\xff\xff\xff\xff\x07', b'\x80\x80\x80\x80\x08', b'\xff\xff\xff\x7f',
              b'\xff\xff\x03', b'\x80\x80\x80\x80\x80', b'\x00']
 OPS = ['trunc_bound', 'trunc_random', 'set_u32', 'set_u16', 'chunk_size', 'flip', 'splice', 'insdel', 'uleb',
-       'strip_last_nul', 'strip_nul', 'fill_tail', 'tail']
+       'strip_last_nul', 'strip_nul', 'fill_tail', 'tail', 'tail_combo']
 # lengths at and around the sizes at which a string reader changes its path: 128-byte read chunks (DEX
 # read_null_terminated_string) and their multiples, the 1 -> 2 byte length prefixes (0x80 / 0x100), several chunks
 TAIL_LENGTHS = [1, 2, 126, 127, 128, 129, 130, 254, 255, 256, 257, 258, 383, 384, 385, 511, 512, 513, 1000, 1023,
                 1024, 1025, 4096, 4097]
 NONNUL = (0x41, 0xff, 0x80, 0x01)
+
+
+# ---- tail-chunk combinations (chunked formats) ------------------------------------------------------------------
+# Every chunk walker (AXML pull loop, resource table outer loop, package inner loop) makes progress by seeking to
+# header.start + header.size, so the invariant under test is "an accepted header has end > start" - for the LAST chunk
+# of the input under every combination of (declared size, declared header size, chunk type, number of bytes left up
+# to the end of the buffer). Chunk types from ResourceTypes.h (RES_*_TYPE) plus values no parser knows.
+RES_KNOWN_TYPES = [0x0000, 0x0001, 0x0002, 0x0003, 0x0100, 0x0101, 0x0102, 0x0103, 0x0104, 0x0180,
+                   0x0200, 0x0201, 0x0202, 0x0203, 0x0204, 0x0205, 0x0206]
+RES_UNKNOWN_TYPES = [0x0105, 0x017f, 0x0181, 0x0207, 0x0777, 0xffff]
+TAIL_TYPES = [None] + RES_KNOWN_TYPES + RES_UNKNOWN_TYPES
+TAIL_HSIZES = [None, 0, 8, 12, 16, 0x18, 0x1c, 0xffff]
+
+
+def tail_sizes(hs):
+    """declared chunk sizes: everything below and at the minimum header, then around the header size"""
+    out = list(range(0, 9))
+    for v in (hs - 1, hs, hs + 1, hs + 4):
+        if v not in out and 0 <= v <= 0xffffffff:
+            out.append(v)
+    return out
+
+
+def tail_rests(hs):
+    """numbers of bytes left between the start of the chunk and the end of the input: 0 .. header size + 16 (large
+    headers: the first 24 values and everything from 8 bytes before the end of the header)"""
+    hs = max(8, min(hs, 0x400))
+    top = hs + 16
+    if hs <= 32:
+        return list(range(0, top + 1))
+    return list(range(0, 25)) + list(range(hs - 8, top + 1))
+
+
+def tail_positions(data, chunks, virt=(0x0101, 16)):
+    """the chunks of a document plus a chunk appended at its end: [(k, off, type, header size, size)]"""
+    pos = [(k, off, t, hs, sz) for k, (off, t, hs, sz) in enumerate(chunks)]
+    pos.append((len(chunks), len(data), virt[0], virt[1], virt[1] + 8))
+    return pos
+
+
+def tail_combo(data, chunks, k, size, hsize, ctype, rest, outer, pad=0, virt=(0x0101, 16)):
+    """Chunk k of `data` (k == len(chunks): a chunk appended at the end) becomes the last chunk of the input: its size
+    field := size, header_size := hsize and type := ctype (None: unchanged), and the input is truncated / padded (byte
+    `pad`) so that exactly `rest` bytes are left from the start of that chunk to the end of the input. outer = 0: the
+    sizes of the enclosing chunks stay as they are; 1: the root chunk ends at the new end of the input; 2: every
+    enclosing chunk does. -> (bytes, offset of the chunk)"""
+    n = len(data)
+    if k >= len(chunks):
+        off, t, hs, sz = n, virt[0], virt[1], virt[1] + 8
+        head = struct.pack('<HHI', t, hs, sz)
+        anc = [(o, s_) for (o, t_, h_, s_) in chunks if t_ in CONTAINER_CHUNKS and o + s_ == n]
+    else:
+        off, t, hs, sz = chunks[k]
+        head = b''
+        anc = [(o, s_) for j, (o, t_, h_, s_) in enumerate(chunks)
+               if j != k and t_ in CONTAINER_CHUNKS and o <= off and off + 8 <= o + s_]
+    new_len = off + rest
+    b = bytearray(data) + head
+    if new_len <= len(b):
+        del b[new_len:]
+    else:
+        b += bytes([pad]) * (new_len - len(b))
+    if ctype is not None and off + 2 <= new_len:
+        struct.pack_into('<H', b, off, ctype)
+    if hsize is not None and off + 4 <= new_len:
+        struct.pack_into('<H', b, off + 2, hsize)
+    if size is not None and off + 8 <= new_len:
+        struct.pack_into('<I', b, off + 4, size & 0xffffffff)
+    if outer:
+        for (o, s_) in anc:
+            if (outer == 2 or o == 0) and o + 8 <= new_len and o != off:
+                struct.pack_into('<I', b, o + 4, new_len - o)
+    return bytes(b), off
+
+
+def tail_labels_res(fmt, off, size, hsize, ctype, hs, t, rest, outer):
+    hsn = hs if hsize is None else hsize
+    d = rest - hsn
+    lab = [fmt + ':tail-chunk-combo',
+           'tail:size' + ('<8' if size < 8 else '=8' if size == 8 else '<hdr' if size < hsn else '>=hdr'),
+           'tail:hsize-' + ('kept' if hsize is None else 'altered'),
+           'tail:type-' + ('kept' if ctype is None or ctype == t else 'known' if ctype in RES_KNOWN_TYPES else 'unknown'),
+           'tail:rest-hdr' + ('<0' if d < 0 else '=0' if d == 0 else '=1..7' if d < 8 else '=8' if d == 8 else '=9..16'
+                              if d <= 16 else '>16'),
+           'tail:outer-' + ('as-is' if not outer else 'consistent')]
+    return lab
+
+
+# ---- DEX analogue: the map_list (a count followed by 12-byte items with a size and an offset each) -----------------
+MAP_ITEM_EDITS = ['none', 'size0', 'size-huge', 'off-eof', 'off-self', 'off-map', 'size1+off-eof-1']
+
+
+def tail_map_counts(cnt):
+    return [0, 1, max(0, cnt - 1), cnt, cnt + 1, cnt + 2, 0xffff, 0xffffffff]
+
+
+def tail_map_rests(cnt):
+    """bytes left between the start of the map_list and the end of the input"""
+    out = [0, 1, 3, 4, 5]
+    for j in (0, 1, cnt - 1, cnt, cnt + 1):
+        for d in (0, 2, 4, 8, 11):
+            v = 4 + 12 * j + d
+            if v > 0 and v not in out:
+                out.append(v)
+    return out
+
+
+def tail_map_case(data, maplist, count, rest, edit, fix_size):
+    """the map_list becomes the last structure of the file: its count := count, the file is cut / padded so that `rest`
+    bytes are left from the start of the list, the last complete item is edited (size / offset), file_size follows for
+    fix_size; checksums are NOT fixed here"""
+    mo, cnt = maplist
+    new_len = max(0x70, mo + rest)
+    b = bytearray(data[:new_len])
+    b += b'\0' * (new_len - len(b))
+    if mo + 4 <= new_len:
+        struct.pack_into('<I', b, mo, count)
+    items = min((new_len - mo - 4) // 12, count) if new_len >= mo + 4 else 0
+    if items > 0 and edit != 'none':
+        e = mo + 4 + 12 * (items - 1)
+        if edit == 'size0':
+            struct.pack_into('<I', b, e + 4, 0)
+        elif edit == 'size-huge':
+            struct.pack_into('<I', b, e + 4, 0xffffffff)
+        elif edit == 'off-eof':
+            struct.pack_into('<I', b, e + 8, new_len)
+        elif edit == 'off-self':
+            struct.pack_into('<I', b, e + 8, e)
+        elif edit == 'off-map':
+            struct.pack_into('<I', b, e + 8, mo)
+        else:
+            struct.pack_into('<II', b, e + 4, 1, new_len - 1)
+    if fix_size and len(b) >= 0x24:
+        struct.pack_into('<I', b, 0x20, len(b))
+    return bytes(b)
+
+
+def tail_map_combo(data, maplist, a, b_, c):
+    mo, cnt = maplist
+    counts, rests = tail_map_counts(cnt), tail_map_rests(cnt)
+    return tail_map_case(data, maplist, counts[a % len(counts)], rests[c % len(rests)],
+                         MAP_ITEM_EDITS[b_ % len(MAP_ITEM_EDITS)], (a >> 4) & 1)
 
 
 def special32(buf, pos, sel):
@@ -1015,6 +1269,8 @@ def apply_op(fmt, buf, pts, op):
         return buf, 'noop'
     if name == 'chunk_size' and not pts['chunks']:
         name = 'set_u32'
+    if name == 'tail_combo' and (fmt not in ('axml', 'arsc') or not pts['chunks']):
+        name = 'tail_map' if fmt == 'dex' and pts.get('map') else 'trunc_bound'
     if name == 'uleb' and not pts['uleb']:
         name = 'set_u32'
     if name == 'strip_last_nul' and not pts.get('laststr'):
@@ -1055,6 +1311,22 @@ def apply_op(fmt, buf, pts, op):
             else:
                 struct.pack_into('<HI', buf, off + 2, 0, 0)
         return buf, name
+    if name == 'tail_combo':
+        # a drawn tail-chunk combination (see tail_combo); the last chunks get half of the picks
+        chunks = pts['chunks']
+        virt = (0x0101, 16) if fmt == 'axml' else (0x0203, 12)
+        k = (len(chunks) - (a >> 4) % min(3, len(chunks) + 1)) if a & 1 else (a >> 4) % (len(chunks) + 1)
+        hs = chunks[k][2] if k < len(chunks) else virt[1]
+        hsize = TAIL_HSIZES[(b_ >> 8) % len(TAIL_HSIZES)] if (b_ >> 4) & 1 else None
+        hsn = hsize if hsize is not None and 8 <= hsize <= 0x40 else hs
+        sizes = tail_sizes(hsn)
+        rests = tail_rests(max(hs, hsn) if (b_ >> 5) & 1 else hsn)
+        out, _ = tail_combo(bytes(buf), chunks, k, sizes[b_ % 16 % len(sizes)], hsize,
+                            TAIL_TYPES[(b_ >> 16) % len(TAIL_TYPES)] if (b_ >> 6) & 1 else None,
+                            rests[c % len(rests)], (0, 1, 2, 2)[(a >> 1) & 3], pad=(0, 0xff)[(a >> 3) & 1], virt=virt)
+        return bytearray(out), name
+    if name == 'tail_map':
+        return bytearray(tail_map_combo(bytes(buf), pts['map'], a, b_, c)), name
     if name == 'flip':
         k = 1 + c % 4
         x = a
@@ -1169,6 +1441,10 @@ def mutate(seed, ops, post):
             pts = SCAN[fmt](bytes(buf))          # lengths changed: rescan
         buf, lab = apply_op(fmt, buf, pts, op)
         labels.append('op:' + lab)
+        if lab == 'tail_combo':
+            labels.append(fmt + ':tail-chunk-combo')
+        elif lab == 'tail_map':
+            labels.append('dex:tail-map-combo')
     if fmt == 'dex':
         if post < 85:
             buf = fix_dex(buf)
@@ -1507,6 +1783,12 @@ def case_strategy(nseeds):
                      st.integers(0, 9))
 
 
+# tail-chunk combinations: systematic on minimal documents / the smallest seeds, drawn on every seed. Short shards at
+# the end of the list: they are picked up by the workers that finish first (runner: chunksize 1)
+TAIL_SHARDS = [('tail', 'axml', 'sys'), ('tail', 'arsc', 'sys'), ('tail', 'axml', 'hyp'), ('tail', 'arsc', 'hyp'),
+               ('tail', 'dex', 'sys')]
+
+
 def shards(tier, seed):
     # seeds are built here, in the parent: the pool workers (fork) inherit the cache
     for f in ('dex', 'axml', 'arsc', 'apk'):
@@ -1516,13 +1798,15 @@ def shards(tier, seed):
         _warmup()
         _PARENT_WARM.add(os.getpid())
     if tier == 'quick':
-        sh = [('hyp', 'dex', k) for k in range(4)] + [('hyp', 'axml', k) for k in range(2)] + \
-             [('hyp', 'arsc', k) for k in range(3)] + [('hyp', 'apk', k) for k in range(3)] + \
-             [('sys', f) for f in ('dex', 'axml', 'arsc', 'apk')]
+        # 21 shards for 16 workers, longest first: the five short tail shards start at once, the shards that take
+        # 10-25 s (sys dex / axml, hyp apk) are picked up by the workers that finish them
+        sh = [('hyp', 'arsc', k) for k in range(3)] + [('sys', 'arsc')] + [('hyp', 'axml', k) for k in range(2)] + \
+             [('hyp', 'dex', k) for k in range(4)] + [('sys', 'apk')] + TAIL_SHARDS + \
+             [('sys', 'dex')] + [('hyp', 'apk', k) for k in range(3)] + [('sys', 'axml')]
     else:
         sh = [('hyp', 'dex', k) for k in range(10)] + [('hyp', 'axml', k) for k in range(5)] + \
              [('hyp', 'arsc', k) for k in range(6)] + [('hyp', 'apk', k) for k in range(7)] + \
-             [('sys', f) for f in ('dex', 'axml', 'arsc', 'apk')] + \
+             [('sys', f) for f in ('dex', 'axml', 'arsc', 'apk')] + TAIL_SHARDS + \
              [('atheris', f, c) for f in ('dex', 'axml', 'arsc', 'apk') for c in ('seeded', 'empty')]
     only = os.environ.get('C35_ONLY')            # development aid: restrict to the shards of one format / kind
     if only:
@@ -1553,6 +1837,8 @@ def run_shard(ctx, shard):
             _run_sys(ctx, shard[1])
         elif kind == 'atheris':
             _run_atheris(ctx, shard[1], shard[2])
+        elif kind == 'tail':
+            _run_tail(ctx, shard[1], shard[2])
         else:
             raise HarnessError('unknown shard %r' % (shard,))
     finally:
@@ -1709,6 +1995,245 @@ def _sys_tail_cases(seed):
             else:
                 struct.pack_into('<I', b, 4, len(b))
             yield 'tail', bytes(b)
+
+
+# -----------------------------------------------------------------------------------------------------
+# tail-chunk combinations
+# -----------------------------------------------------------------------------------------------------
+def minimal_docs(fmt):
+    """[(name, bytes, virtual tail chunk (type, header size))]: the smallest documents that bring a walker to each of
+    its states - AXML: string pool only; + one start/end element; + resource map; + namespace; + text. ARSC: table
+    header + pool; + one package (type / key pools) + typeSpec + type (one entry); two types."""
+    from vf.gen import axmlgen as A, arscgen as R
+    if fmt == 'axml':
+        def doc(*chunks):
+            body = b''.join(chunks)
+            return struct.pack('<HHI', 0x0003, 8, 8 + len(body)) + body
+        out = [('min:pool-empty', doc(A.string_pool([], utf8=True))),
+               ('min:pool', doc(A.string_pool(['a', 'b'], utf8=False))),
+               ('min:element', A.build_axml(A.E('a'))),
+               ('min:element+resmap', A.build_axml(A.E('a', attrs=[A.a_int('versionCode', 1, with_resid=True)]),
+                                                   utf8=True)),
+               ('min:element+resmap+ns+text', A.build_axml(A.E(
+                   'a', attrs=[A.a_int('versionCode', 1, with_resid=True)], nsdecls=[('android', A.NS_ANDROID)],
+                   children=[A.E('b'), 't']), utf8=True))]
+        return [(n, d, (0x0101, 16)) for n, d in out]
+    d = R.make_config()
+    one = {'utf8': True, 'pool_extra': [], 'packages': [{'id': 0x7f, 'name': 'a', 'types': [
+        {'name': 'string', 'entry_count': 1, 'chunks': [{'config': d, 'offsets': '32', 'entries': [
+            [0, {'kind': 'plain', 'key': 'k', 'value': [R.TYPE_STRING, 'v']}]]}]}]}]}
+    two = {'utf8': False, 'pool_extra': [], 'packages': [{'id': 0x7f, 'name': 'a', 'types': [
+        {'name': 'string', 'entry_count': 1, 'chunks': [{'config': d, 'offsets': '32', 'entries': [
+            [0, {'kind': 'plain', 'key': 'k', 'value': [R.TYPE_STRING, 'v']}]]}]},
+        {'name': 'integer', 'entry_count': 1, 'chunks': [{'config': d, 'offsets': '16', 'entries': [
+            [0, {'kind': 'compact', 'key': 'n', 'value': [R.TYPE_INT_DEC, 7]}]]}]}]}]}
+    pool = R.string_pool(['v'], utf8=True)
+    out = [('min:table+pool', struct.pack('<HHII', 0x0002, 12, 12 + len(pool), 0) + pool),
+           ('min:table+package', R.build(one)), ('min:table+package2', R.build(two))]
+    return [(n, d_, (0x0203, 12)) for n, d_ in out]
+
+
+def _tail_plan(hs, t, level):
+    """the (size, header size, type, rest) combinations enumerated for one chunk position. level 0 (minimal documents):
+    E1 every small size x every rest, type kept / moved to the other class (XML node type <-> other); E2 every altered
+    header size x the sizes below / at the minimum and at the header x the rests around the end of the header; E3 every
+    chunk type x sizes 0 / 7 / 8 x header sizes kept / 8 / 16 / 28 x rests at 4-byte steps after the header.
+    level 1 (small seeds): a cross-section of the same."""
+    flip = 0x0777 if 0x0100 <= t <= 0x017f else 0x0105
+    if level == 0:
+        for size in tail_sizes(hs):
+            for rest in tail_rests(hs):
+                for ctype in ((None, flip) if size in (0, 4, 7, 8) else (None,)):
+                    yield size, None, ctype, rest
+        for hsize in TAIL_HSIZES[1:]:
+            hsn = hsize if 8 <= hsize <= 0x40 else hs
+            sizes = [0, 4, 7, 8] + [v for v in (hsn - 1, hsn) if v > 8]
+            rests = sorted({r for r in [0, 4, 8, 12] + [hsn + d_ for d_ in (-1, 0, 1, 4, 7, 8, 9, 12, 16)] if r >= 0})
+            for size in sizes:
+                for rest in rests:
+                    yield size, hsize, None, rest
+        for ctype in TAIL_TYPES[1:]:
+            for hsize in ((None, 8, 16, 0x1c) if ctype == 0x0001 else (None, 8, 16)):
+                hsn = hs if hsize is None else hsize
+                for size in (0, 7, 8):
+                    for d_ in (0, 4, 8, 12, 16):
+                        yield size, hsize, ctype, hsn + d_
+    else:
+        for size in (0, 4, 7, 8, hs):
+            for d_ in (0, 4, 7, 8, 9, 12, 16):
+                for ctype in (None, flip):
+                    yield size, None, ctype, hs + d_
+        for k, ctype in enumerate(TAIL_TYPES[1:]):
+            hsize = (None, 8, 16, 0x1c)[k % 4]
+            hsn = hs if hsize is None else hsize
+            for size in (0, 7):
+                for d_ in (4, 8, 12):
+                    yield size, hsize, ctype, hsn + d_
+
+
+def _tail_cases(fmt, name, data, virt, level):
+    """-> iterator of (labels, bytes, chunk offset, origin ops) for every chunk position of one document; positions
+    are interleaved so that a budget cut leaves every position covered"""
+    chunks = []
+    walk_chunks(data, 0, len(data), chunks)
+    declared = _u32(data, 4) or 0
+
+    def one(k, off, t, hs):
+        i = 0
+        for (size, hsize, ctype, rest) in _tail_plan(hs, t, level):
+            i += 1
+            outers = [2]
+            # enclosing sizes as they are: always when the input is not shorter than the root chunk declares (shorter:
+            # refused at the first header, a class the truncation cases cover) - otherwise for every fourth case
+            if off + rest >= declared or i % 4 == 0:
+                outers.append(0)
+            if fmt == 'arsc' and i % 3 == 0:
+                outers.append(1)
+            for outer in outers:
+                b, _ = tail_combo(data, chunks, k, size, hsize, ctype, rest, outer, pad=0xff if i & 1 else 0, virt=virt)
+                yield (tail_labels_res(fmt, off, size, hsize, ctype, hs, t, rest, outer), b, off,
+                       'tail-combo k=%d size=%d hsize=%r type=%r rest=%d outer=%d' % (k, size, hsize, ctype, rest, outer))
+    gens = [one(k, off, t, hs) for (k, off, t, hs, sz) in tail_positions(data, chunks, virt)]
+    while gens:
+        for g in list(gens):
+            try:
+                yield next(g)
+            except StopIteration:
+                gens.remove(g)
+
+
+def _tail_eval(ctx, fmt, batch, base):
+    """batch = [(data, labels, chunk offset, origin)]; every 48th case also goes through the APK front door"""
+    ress = evaluate_many(ctx, fmt, [(d, ['sys:tail-chunk-combo'] + lab, org) for (d, lab, off, org) in batch])
+    for (d, lab, off, org), res in zip(batch, ress):
+        if nontrivial(fmt, res.get('flags', {})):
+            ctx.label('tail-chunk-combo:reached')
+        if off in (res.get('flags', {}).get('hdr_offs') or ()):
+            # measurement: a chunk walker (or the pool / table header reader) read a header at the offset of the tail chunk
+            ctx.label('tail:walker-read-the-tail-header')
+            if 'tail:size<8' in lab:
+                ctx.label('tail:walker-read-the-tail-header:size<8')
+    apk = []
+    for j, (d, lab, off, org) in enumerate(batch):
+        if (base + j) % 48 == 47:
+            try:
+                apk.append((inner_apk(fmt, d), ['sys:tail-chunk-combo', 'apk:inner-' + fmt, 'apk:tail-chunk-combo'] +
+                            [l for l in lab if l.startswith('tail:')], org))
+            except Exception:
+                ctx.count('inner_apk_not_packable')
+    if apk:
+        evaluate_many(ctx, 'apk', apk)
+
+
+def _tail_cap(ctx):
+    try:
+        return float(os.environ['C35_TAIL_CAP_S'])
+    except (KeyError, ValueError):
+        return 24.0 if ctx.tier == 'quick' else 150.0
+
+
+def _run_tail(ctx, fmt, mode):
+    seeds = build_seeds(fmt, ctx.seed, ctx.tier)
+    cap = _tail_cap(ctx)
+    sandbox().run(fmt, seeds[0]['data'], budget_for(len(seeds[0]['data'])))
+    ctx.__dict__['_c35_t0'] = time.time()
+    if fmt == 'dex':
+        _run_tail_dex(ctx, seeds, cap)
+        return
+    if mode == 'sys':
+        docs = minimal_docs(fmt)
+        # quick: the full plan on the largest minimal document (its prefixes are the smaller ones), a cross-section on
+        # the others and on the smallest seeds
+        docs = [(n, d, v, 0 if j == len(docs) - 1 or ctx.tier != 'quick' else 1) for j, (n, d, v) in enumerate(docs)]
+        virt = docs[0][2]
+        docs += [(s['name'], s['data'], virt, 1) for s in seeds[:3 if ctx.tier == 'quick' else 8]]
+        for (n, d, v, lvl) in docs:
+            evaluate(ctx, fmt, d, labels=['sys:unmodified'], origin={'seed': n, 'ops': 'none'})
+        gens = [(n, _tail_cases(fmt, n, d, v, lvl)) for (n, d, v, lvl) in docs]
+        i = 0
+        while gens and not _over_budget(ctx, cap):
+            batch = []
+            for rnd in range(8):
+                for item in list(gens):
+                    try:
+                        labels, data, off, ops = next(item[1])
+                    except StopIteration:
+                        gens.remove(item)
+                        continue
+                    batch.append((data, labels, off, {'seed': item[0], 'ops': ops}))
+            _tail_eval(ctx, fmt, batch, i)
+            i += len(batch)
+        if gens:
+            ctx.count('tail_sys_budget_cut_docs:' + fmt, len(gens))
+        return
+    # drawn: a tail combination on any seed (minimal documents included), optionally followed by one more mutation
+    # (the minimal documents and the smallest seeds four times: about a third of the draws)
+    docs = ([{'fmt': fmt, 'name': n, 'data': d, 'pts': SCAN[fmt](d)} for (n, d, v) in minimal_docs(fmt)] +
+            list(seeds[:4])) * 3 + list(seeds)
+    kind = OPS.index('tail_combo')
+    strat = st.tuples(st.integers(0, len(docs) - 1), st.integers(0, 0xffffffff), st.integers(0, 0xffffffff),
+                      st.integers(0, 0xffff), st.lists(_op, min_size=0, max_size=1), st.integers(0, 99),
+                      st.integers(0, 19))
+
+    def fn(c, v):
+        si, a, b_, cc, more, post, route = v
+        if _over_budget(ctx, cap):
+            c.count('budget_skipped')
+            return
+        seed = docs[si]
+        ops = [(kind, a, b_, cc)] + list(more)
+        data, labels = mutate(seed, ops, post)
+        target = fmt
+        if route == 0:
+            try:
+                data = inner_apk(fmt, data)
+                target = 'apk'
+                labels += ['apk:inner-' + fmt, 'apk:tail-chunk-combo']
+            except Exception:
+                c.count('inner_apk_not_packable')
+        res = evaluate(c, target, data, labels=labels + ['hyp:tail-chunk-combo'],
+                       origin={'seed': seed['name'], 'ops': [list(o) for o in ops], 'post': post})
+        if nontrivial(target, res.get('flags', {})):
+            c.label('tail-chunk-combo:reached')
+    batch = 125
+    for b in range(200):
+        if _over_budget(ctx, cap):
+            break
+        hyp_collect(ctx, strat, fn, batch, salt=hash_salt(fmt, 50) * 1000 + b, shrink=False)
+
+
+def _run_tail_dex(ctx, seeds, cap):
+    """the DEX analogue of the last chunk: the map_list (count + items with size / offset) at the end of the input"""
+    picked = [s for s in seeds if s['pts'].get('map')][:4 if ctx.tier == 'quick' else 12]
+    ctx.count('tail_dex_seeds', len(picked))
+
+    def cases(s):
+        data, ml = s['data'], s['pts']['map']
+        i = 0
+        for count in tail_map_counts(ml[1]):
+            for rest in tail_map_rests(ml[1]):
+                i += 1
+                edits = ['none', MAP_ITEM_EDITS[1 + i % (len(MAP_ITEM_EDITS) - 1)]]
+                for edit in edits:
+                    for fix_size in ((1, 0) if i % 2 else (1,)):
+                        yield (count, rest, edit, fix_size), tail_map_case(data, ml, count, rest, edit, fix_size)
+    gens = [(s, cases(s)) for s in picked]
+    while gens and not _over_budget(ctx, cap):
+        for item in list(gens):
+            try:
+                (count, rest, edit, fix_size), b = next(item[1])
+            except StopIteration:
+                gens.remove(item)
+                continue
+            s = item[0]
+            at_tail = len(s['data']) - (s['pts']['map'][0] + 4 + 12 * s['pts']['map'][1]) < 4
+            evaluate(ctx, 'dex', bytes(fix_dex(b)),
+                     labels=['sys:tail-map-combo', 'dex:tail-map-combo', 'dex:checksums-fixed',
+                             'tail:map-' + ('last-in-file' if at_tail else 'followed-by-data'),
+                             'tail:file-size-' + ('consistent' if fix_size else 'as-is')],
+                     origin={'seed': s['name'], 'ops': 'tail-map count=%d rest=%d edit=%s fix=%d' % (count, rest, edit, fix_size)})
+    if gens:
+        ctx.count('tail_sys_budget_cut_docs:dex', len(gens))
 
 
 # -----------------------------------------------------------------------------------------------------
